@@ -120,8 +120,9 @@ class CombinedDataHandler:
                 reporting_units[f"results_{estimand}"] - reporting_units[f"last_election_results_{estimand}"]
             ) / reporting_units[f"last_election_results_{estimand}"]
 
-        # units where expected vote is less than the percent reporting threshold
-        nonreporting_units = self.data[self.data.percent_expected_vote < percent_reporting_threshold].reset_index(
+        # units where expected vote is less than the percent reporting threshold; written as "not at or above it" so
+        # that a unit whose expected vote is missing still ends up on one of the two sides (it counts as not reporting)
+        nonreporting_units = self.data[~(self.data.percent_expected_vote >= percent_reporting_threshold)].reset_index(
             drop=True
         )
 
